@@ -75,4 +75,15 @@ CHECKS = {
         "note": STD_NOTE + " from_utf8 is an environment model (C15).",
         "technique": "Coq proof (induction over the note list) + extraction-based differential correspondence",
     },
+    "C13": {
+        "text": "Coq theorems over a declarative layout predicate (records linked by their next/aux offsets in any forward placement): "
+                "C13_iter_aux / C13_iter_outer (the four iterators yield exactly the linked records in chain order), C13_requirement "
+                "(get_requirement = file, version name, hash, flags of the FIRST auxiliary record whose vna_other equals versym[i] mod 2^15, "
+                "hidden = bit 15, Ok None when none matches, the versym error when i is beyond the table), C13_definition, "
+                "C13_definition_names, C13_index_bits, C13_beyond_versym, C13_wiring (counts from sh_info, strings via sh_link). Tie: version "
+                "models with contiguous and interleaved placement, hidden bits, duplicates, unknown indexes, class x spec, through the "
+                "stand-alone table and through ElfBytes, against the generator's ground truth.",
+        "note": STD_NOTE + " from_utf8 is an environment model (C15).",
+        "technique": "Coq proof (chain induction, first-match refinement) + extraction-based differential correspondence with ground-truth oracle",
+    },
 }
